@@ -74,6 +74,7 @@ class ComponentLabels(_EnumOb):
     """FaceVariable.xvalue ... phivalue: get and set succeed exactly for the components of the grid's coordinate system
     and raise AttributeError otherwise"""
     name = 'FaceVariable/component_labels_of_coordinate_system'
+    props = ('C16', 'C10')      # C10: "vector components are reachable only under the labels of that coordinate system"
 
     def setup(self, w):
         res = {}
